@@ -864,17 +864,26 @@ func (m *MutableOverlayWorld) AddFeature(f Feature) error {
 
 	existing := (*m.features)[f.FeatureID()]
 	references := allReferences(f, m)
-	if existing != nil {
+	if existing != nil || m.base.HasFeatureWithID(f.FeatureID()) {
+		// The feature is being replaced (it may so far only exist in the
+		// base): the features that reference it must remain valid.
+		restore := func() {
+			if existing != nil {
+				(*m.features)[f.FeatureID()] = existing
+			} else {
+				delete(*m.features, f.FeatureID())
+			}
+		}
 		(*m.features)[f.FeatureID()] = f
 
 		for _, reference := range references {
 			if err := ValidateFeature(NewFeatureFromWorld(reference), &ValidateOptions{InvertClockwisePaths: false}, m); err != nil {
-				(*m.features)[f.FeatureID()] = existing
+				restore()
 				return err
 			}
 		}
 
-		(*m.features)[f.FeatureID()] = existing
+		restore()
 	}
 
 	modified := NewModifiedFeaturesWithCopies(f, references, m.features, m)
